@@ -245,6 +245,10 @@ PROBES = {
 }
 
 
+# F91: select over a multiply inheriting entity whose attribute is redeclared on a second inheritance path (found with seed 14 only)
+REGRESSION = ("719e29aeff8d6cb9",)
+
+
 def probe_known(ev, findings, root):
     """Fixed minimal inputs of the open findings: report KNOWN-FINDING while they still reproduce."""
     for sig, text in PROBES.items():
@@ -279,6 +283,12 @@ def main(tier, seed):
            "p_array_optional": 30,
            "type_weights": {"simple": 20, "alias": 20, "enum": 16, "enum_alias": 10, "agg": 14, "select": 20}}
     schemas = [zoo.ZOO] + farm.draw_schemas(common.sub_seed(seed, PROP, "schemas"), n, cfg)
+    # shrunk-by-hand or as-found schemas of repaired defects whose shape the generator reaches only rarely; judged like any other
+    for rid in REGRESSION:
+        f = os.path.join(common.VERIF, "replays", PROP, rid, "schema.json")
+        if os.path.exists(f):
+            schemas.append(json.load(open(f)))
+            ev.bump("regression-schemas")
     for sd in schemas:
         for x in sd.get("tags", {}).get("excluded", []):
             ev.exclude(x)
